@@ -69,3 +69,21 @@ Theorem C13_register_never_address : forall regs o a b s ms txt m,
   exists ts e, plain_tokens txt = Some ts /\ parse_tokens ts = Ok e /\ mentions_register regs e = false.
 Proof. exact register_never_address. Qed.
 Print Assumptions C13_register_never_address.
+
+(* an alternative that does not accept a statement's operands only declines them: neither an operand alternative, nor a
+   listed combination, nor an operand set can stop the alternatives after it from being tried (D41, D42) *)
+Theorem C13_matching_never_aborts : forall regs pp operands, find_matching regs pp operands <> MAbort.
+Proof. exact find_matching_never_aborts. Qed.
+Print Assumptions C13_matching_never_aborts.
+
+Theorem C13_operand_declines_or_accepts : forall regs o txt, try_operand regs o txt <> PAbort.
+Proof. exact try_operand_never_aborts. Qed.
+Print Assumptions C13_operand_declines_or_accepts.
+
+(* a listed combination that declines (for instance because the statement has fewer operands than it needs) is passed over *)
+Theorem C13_declining_combination_skipped : forall regs sp rest operands count,
+  Z.of_nat (length (sp_ops sp)) = count ->
+  match_specific_ops regs (sp_ops sp) operands 0 [] = inl None ->
+  find_specific regs (sp :: rest) operands count = find_specific regs rest operands count.
+Proof. exact find_specific_skips_declining. Qed.
+Print Assumptions C13_declining_combination_skipped.
